@@ -200,6 +200,15 @@ def parse_nats(val):
     return [int(a) for a in re.findall(r"\d+", v)]
 
 
+def parallel_map(fn, items, workers=8):
+    """Run fn over items concurrently (the work is in coqc subprocesses), keeping order."""
+    from concurrent.futures import ThreadPoolExecutor
+    if not items:
+        return []
+    with ThreadPoolExecutor(max_workers=workers) as ex:
+        return list(ex.map(fn, items))
+
+
 # ----------------------------------------------------------------------------- Go harness
 
 def go_build(module, binary):
